@@ -297,7 +297,7 @@ func (x *Exec) doExportContinue(op *Op) {
 	if exportCtxRules(x, pre, mid, "in the state prepared for the zero-height export"); x.stopped {
 		return
 	}
-	nh := &Host{cfg: h.cfg, db: dbm.NewMemDB(), chain: h.chain, generation: h.generation + 1, rates: copyRates(h.rates)}
+	nh := &Host{cfg: h.cfg, db: dbm.NewMemDB(), chain: h.chain, generation: h.generation + 1, rates: copyRates(h.rates), noForeign: h.noForeign || op.NoForeign}
 	nh.app = newApp(nh.db, h.cfg.MultiToken)
 	nh.registerForeign()
 	p, fromSvc = guard(func() { nh.initChain(appState, 1, h.Time()) })
